@@ -243,50 +243,56 @@ example :
 /-! ### end to end: bytes of a dump -> formatted trace lines (`Model/EndToEnd.lean`) -/
 
 /-- **The cut dump as the trace layer sees it.**  For every byte string and every cut: when the container reader gets
-    through the header of the cut version-2 dump at all, it gets through the header of the whole dump, hands the trace
-    layer the SAME thread map, and the events of the cut dump are a prefix of the events of the whole dump.  (The greedy
-    zero skipper `_pad` looks one byte ahead: a cut inside the padding — or inside leading zero bytes of the first record
-    — ends the padding earlier than in the whole dump; but then the cut dump ends there too and delivers no event.) -/
-theorem e2e_truncated_dump (file : Bytes) (k : Nat) (d' : TracePipeline.Dump) (c' : Option PyErr)
-    (h : EndToEnd.dumpOf (file.take k) = .ok (d', c')) :
-    ∃ d c, EndToEnd.dumpOf file = .ok (d, c) ∧ d'.threadMap = d.threadMap ∧ d'.events <+: d.events :=
-  EndToEnd.dumpOf_trunc file k d' c' h
+    through the header of the cut dump at all (version 2: `kd_header_v2`; version 3: the header, both scans and the
+    thread-map chunk), it gets through the header of the whole dump, hands the trace layer the SAME thread map, and the
+    events of the cut dump are a prefix of the events of the whole dump.  (Version 2: the greedy zero skipper `_pad` looks
+    one byte ahead: a cut inside the padding — or inside leading zero bytes of the first record — ends the padding earlier
+    than in the whole dump; but then the cut dump ends there too and delivers no event.  Version 3: every read of the
+    header part is exact or a scan that raises at end of file; the chunk loop is `chunkLoop_trunc`.)  `plist` is
+    `plistlib.loads` as far as the container parser looks at the result; the version-2 branch ignores it. -/
+theorem e2e_truncated_dump (plist : Bytes → Option PView) (file : Bytes) (k : Nat) (d' : TracePipeline.Dump)
+    (c' : Option PyErr) (h : EndToEnd.dumpOf plist (file.take k) = .ok (d', c')) :
+    ∃ d c, EndToEnd.dumpOf plist file = .ok (d, c) ∧ d'.threadMap = d.threadMap ∧ d'.events <+: d.events :=
+  EndToEnd.dumpOf_trunc plist file k d' c' h
 
 /-- The container step of the composition is the container parser the theorems above are about: the same events and
     the same final exception as `KdBufParser.parse` on the same bytes (whatever the parser object held before), and the
     shared tables while the events are delivered are `set_thread_map` of the thread map the trace layer receives — so
     `no_fabrication`, `never_hangs`, `reads_linear` speak about the events `formattedTraces` is computed from. -/
 theorem e2e_dump_is_parse (plist : Bytes → Option PView) (prior : PState) (file : Bytes) (d : TracePipeline.Dump)
-    (c : Option PyErr) (h : EndToEnd.dumpOf file = .ok (d, c)) :
+    (c : Option PyErr) (h : EndToEnd.dumpOf plist file = .ok (d, c)) :
     (parse plist fromKdBuf prior file).events = d.events ∧ (parse plist fromKdBuf prior file).err = c ∧
     ∃ tm, d.threadMap = EndToEnd.threadMapOf tm ∧
       (parse plist fromKdBuf prior file).tmTables = setThreadMap prior.tables tm :=
   EndToEnd.dumpOf_is_parse plist prior file d c h
 
-/-- **Truncation, end to end.**  For EVERY byte string `file` (well-formed dump or not), every cut offset `k`, every
+/-- **Truncation, end to end.**  For EVERY byte string `file` (version-2 or version-3 dump, well formed or not, or
+    neither), every reading `plist` of the property lists, every cut offset `k`, every
     filter configuration of the parser object (thread, process, class, subclass), every trace-code table / decoder
     environment and every setting of the column switches: the formatted trace lines reported for the cut dump — the
     lines `formatted_traces` yields before it stops, normally or with an exception — are a prefix of the lines reported
     for the complete dump.  Ingredients: `e2e_truncated_dump` (same thread map, events a prefix); the event filter is
     per item; `feed_generator` is causal; each post-filter decides from the trace and the tables at the trace's own
     yield; the line builder is mapped lazily and the list ends at the first trace whose text raises. -/
-theorem e2e_truncation_prefix (env : Trace.Env) (obj : TracePipeline.Obj) (sh : Format.Show) (file : Bytes) (k : Nat) :
-    (EndToEnd.formattedTraces env obj sh (file.take k)).1 <+: (EndToEnd.formattedTraces env obj sh file).1 :=
-  EndToEnd.formattedTraces_trunc env obj sh file k
+theorem e2e_truncation_prefix (env : Trace.Env) (obj : TracePipeline.Obj) (sh : Format.Show)
+    (plist : Bytes → Option PView) (file : Bytes) (k : Nat) :
+    (EndToEnd.formattedTraces env obj sh plist (file.take k)).1 <+: (EndToEnd.formattedTraces env obj sh plist file).1 :=
+  EndToEnd.formattedTraces_trunc env obj sh plist file k
 
 /-- … hence nothing already reported is later changed or withdrawn: the lines grow monotonically with the cut offset. -/
-theorem e2e_truncation_monotone (env : Trace.Env) (obj : TracePipeline.Obj) (sh : Format.Show) (file : Bytes)
-    (k₁ k₂ : Nat) (h : k₁ ≤ k₂) :
-    (EndToEnd.formattedTraces env obj sh (file.take k₁)).1 <+: (EndToEnd.formattedTraces env obj sh (file.take k₂)).1 := by
-  have := e2e_truncation_prefix env obj sh (file.take k₂) k₁
+theorem e2e_truncation_monotone (env : Trace.Env) (obj : TracePipeline.Obj) (sh : Format.Show)
+    (plist : Bytes → Option PView) (file : Bytes) (k₁ k₂ : Nat) (h : k₁ ≤ k₂) :
+    (EndToEnd.formattedTraces env obj sh plist (file.take k₁)).1 <+:
+      (EndToEnd.formattedTraces env obj sh plist (file.take k₂)).1 := by
+  have := e2e_truncation_prefix env obj sh plist (file.take k₂) k₁
   rwa [List.take_take, Nat.min_eq_left h] at this
 
 /-- the same for the traces themselves (with the tables at their yield), before the line builder. -/
-theorem e2e_traces_prefix (env : Trace.Env) (obj : TracePipeline.Obj) (file : Bytes) (k : Nat)
-    (d' d : TracePipeline.Dump) (c' c : Option PyErr)
-    (h' : EndToEnd.dumpOf (file.take k) = .ok (d', c')) (h : EndToEnd.dumpOf file = .ok (d, c)) :
+theorem e2e_traces_prefix (env : Trace.Env) (obj : TracePipeline.Obj) (plist : Bytes → Option PView) (file : Bytes)
+    (k : Nat) (d' d : TracePipeline.Dump) (c' c : Option PyErr)
+    (h' : EndToEnd.dumpOf plist (file.take k) = .ok (d', c')) (h : EndToEnd.dumpOf plist file = .ok (d, c)) :
     (TracePipeline.traces env obj d').1.traces <+: (TracePipeline.traces env obj d).1.traces := by
-  obtain ⟨d₂, c₂, h₂, htm, hev⟩ := e2e_truncated_dump file k d' c' h'
+  obtain ⟨d₂, c₂, h₂, htm, hev⟩ := e2e_truncated_dump plist file k d' c' h'
   rw [h] at h₂
   simp only [Except.ok.injEq, Prod.mk.injEq] at h₂
   obtain ⟨rfl, _⟩ := h₂
@@ -300,18 +306,18 @@ theorem take_prefix_take {α : Type} (n : Nat) {l₁ l₂ : List α} (h : l₁ <
 /-- **Limiting the output count, end to end.**  `print_with_count(formatted_traces(…), n)` prints, for `n ≥ 0`, exactly
     the first `n` of the lines (all of them for a negative `n`), and what it prints for a cut dump is a prefix of what
     it prints for the complete dump — for every `n`. -/
-theorem e2e_count_prefix (env : Trace.Env) (obj : TracePipeline.Obj) (sh : Format.Show) (file : Bytes) (k : Nat)
-    (n : Int) :
-    (0 ≤ n → printWithCount (EndToEnd.formattedTraces env obj sh file).1 n
-              = (EndToEnd.formattedTraces env obj sh file).1.take n.toNat) ∧
-    printWithCount (EndToEnd.formattedTraces env obj sh (file.take k)).1 n <+:
-      printWithCount (EndToEnd.formattedTraces env obj sh file).1 n := by
+theorem e2e_count_prefix (env : Trace.Env) (obj : TracePipeline.Obj) (sh : Format.Show) (plist : Bytes → Option PView)
+    (file : Bytes) (k : Nat) (n : Int) :
+    (0 ≤ n → printWithCount (EndToEnd.formattedTraces env obj sh plist file).1 n
+              = (EndToEnd.formattedTraces env obj sh plist file).1.take n.toNat) ∧
+    printWithCount (EndToEnd.formattedTraces env obj sh plist (file.take k)).1 n <+:
+      printWithCount (EndToEnd.formattedTraces env obj sh plist file).1 n := by
   refine ⟨(count_prefix _ n).1, ?_⟩
   by_cases hn : 0 ≤ n
   · rw [(count_prefix _ n).1 hn, (count_prefix _ n).1 hn]
-    exact take_prefix_take _ (e2e_truncation_prefix env obj sh file k)
+    exact take_prefix_take _ (e2e_truncation_prefix env obj sh plist file k)
   · rw [(count_prefix _ n).2.1 (by omega), (count_prefix _ n).2.1 (by omega)]
-    exact e2e_truncation_prefix env obj sh file k
+    exact e2e_truncation_prefix env obj sh plist file k
 
 /-! #### non-vacuity: a 740-byte dump (thread map of two entries, padding, six records) at four cuts -/
 
@@ -319,15 +325,15 @@ theorem e2e_count_prefix (env : Trace.Env) (obj : TracePipeline.Obj) (sh : Forma
     padding: the header parses, no line, no exception; cut inside the thread map: no line, `StreamError`. -/
 example :
     let file := Spec.encodeV2 EndToEnd.exFile
-    (EndToEnd.formattedTraces EndToEnd.exEnv {} {} file).1.length = 6 ∧
-    (EndToEnd.formattedTraces EndToEnd.exEnv {} {} file).2 = none ∧
-    EndToEnd.formattedTraces EndToEnd.exEnv {} {} (file.take 600) =
+    (EndToEnd.formattedTraces EndToEnd.exEnv {} {} EndToEnd.noPlist file).1.length = 6 ∧
+    (EndToEnd.formattedTraces EndToEnd.exEnv {} {} EndToEnd.noPlist file).2 = none ∧
+    EndToEnd.formattedTraces EndToEnd.exEnv {} {} EndToEnd.noPlist (file.take 600) =
       (["1 launchd(42)                       Process exit name: x",
         "2 launchd(42)                       New thread 9 of parent: 50",
         "3 (50)                              Process exit name: y"], some .structError) ∧
-    EndToEnd.formattedTraces EndToEnd.exEnv {} {} (file.take 354) = ([], none) ∧
-    EndToEnd.formattedTraces EndToEnd.exEnv {} {} (file.take 300) = ([], some .streamError) ∧
-    printWithCount (EndToEnd.formattedTraces EndToEnd.exEnv {} {} (file.take 600)).1 2 =
+    EndToEnd.formattedTraces EndToEnd.exEnv {} {} EndToEnd.noPlist (file.take 354) = ([], none) ∧
+    EndToEnd.formattedTraces EndToEnd.exEnv {} {} EndToEnd.noPlist (file.take 300) = ([], some .streamError) ∧
+    printWithCount (EndToEnd.formattedTraces EndToEnd.exEnv {} {} EndToEnd.noPlist (file.take 600)).1 2 =
       ["1 launchd(42)                       Process exit name: x",
        "2 launchd(42)                       New thread 9 of parent: 50"] := by
   decide +kernel
@@ -336,9 +342,9 @@ example :
 example :
     let file := Spec.encodeV2 EndToEnd.exFile
     let obj : TracePipeline.Obj := { cfg := { filterProcess := some "50", filterClass := [7] } }
-    (EndToEnd.formattedTraces EndToEnd.exEnv obj { process := false } file).1 =
+    (EndToEnd.formattedTraces EndToEnd.exEnv obj { process := false } EndToEnd.noPlist file).1 =
       ["3 Process exit name: y", "5 Process exit name: z"] ∧
-    (EndToEnd.formattedTraces EndToEnd.exEnv obj { process := false } (file.take 560)).1 = ["3 Process exit name: y"] := by
+    (EndToEnd.formattedTraces EndToEnd.exEnv obj { process := false } EndToEnd.noPlist (file.take 560)).1 = ["3 Process exit name: y"] := by
   decide +kernel
 
 end KdVerif.C06
